@@ -125,6 +125,10 @@ Seeds0 == {
   Sch([type |-> "object", title |-> "T",
        default |-> O(<< <<"class", JInt(1)>>, <<"b", JInt(2)>>, <<"a", JInt(3)>> >>),
        enum |-> << O(<< <<"b", JInt(1)>>, <<"a", JStr("x")>> >>), JNull >>]),
+  (* literals that Python's == cannot tell apart (0 / false, 1 / true / 1.0), side by side *)
+  Sch([enum |-> << JInt(0), JBool(FALSE), JInt(1), JFlt(1, 1) >>]),
+  Sch([enum |-> << JArr(<<JInt(0)>>), JArr(<<JBool(FALSE)>>), O(<< <<"a", JInt(1)>> >>), O(<< <<"a", JBool(TRUE)>> >>) >>,
+       uniqueItems |-> TRUE]),
   (* an empty tuple whose further items are objects of a class *)
   Sch([type |-> "object", title |-> "T",
        properties |-> << <<"a", Sch([type |-> "array", itemsT |-> <<>>,
